@@ -292,8 +292,6 @@ def _is_copy_of(value, name):
             return True
         if f == f"{name}.copy":
             return True
-    if isinstance(value, ast.Dict):
-        return any(k is None and isinstance(v, ast.Name) and v.id == name for k, v in zip(value.keys, value.values))
     return False
 
 
@@ -318,9 +316,11 @@ def _resolution_policy(fn):
             if isinstance(st, ast.Assign) and any(isinstance(t, ast.Name) and t.id == "resolution" for t in st.targets):
                 if isinstance(st.value, ast.Name) and st.value.id == "resolution":
                     pass
-                elif _is_copy_of(st.value, "resolution") or not any(
-                        isinstance(s, ast.Name) and s.id == "resolution" for s in ast.walk(st.value)):
-                    alias = False          # rebound to a copy or to a new object
+                elif (_is_copy_of(st.value, "resolution")
+                      or isinstance(st.value, (ast.Dict, ast.List, ast.Tuple, ast.Set, ast.Constant, ast.DictComp,
+                                               ast.ListComp, ast.SetComp, ast.JoinedStr))
+                      or not any(isinstance(s, ast.Name) and s.id == "resolution" for s in ast.walk(st.value))):
+                    alias = False          # rebound to a copy, a literal or an expression that does not mention it
                 continue
             if isinstance(st, ast.If):
                 a1 = block(st.body, alias)
